@@ -14,5 +14,7 @@ def run(ctx: Ctx):
     ctx.assumptions += ["weights and timestamps scaled by powers of two (exact interval lengths)",
                         "the weighted mean when no weight is positive may be NaN or 0 (statement silent); variance must be NaN, never an exception"]
     q = ctx.quick
-    sc.check_kind(ctx, "wtally", 4 if q else 5, max_paths=6000 if q else 60000)
-    sc.check_kind(ctx, "ttally", 5 if q else 6, max_paths=6000 if q else 60000)
+    sc.check_kind(ctx, "wtally", 4 if q else 5, max_paths=None if q else 80000)
+    sc.check_kind(ctx, "ttally", 4 if q else 5, max_paths=None if q else 80000)
+    if q:
+        sc.check_kind(ctx, "ttally", 5, max_paths=8000, label="Stats[ttally] histories <= 5 (sampled paths)")
